@@ -28,6 +28,7 @@ func (r *zzInRec) PID() *PID            { return nil }
 func (r *zzInRec) Send(*PID, any, *PID) {}
 func (r *zzInRec) Shutdown()            {}
 func (r *zzInRec) Invoke(msgs []Envelope) {
+	zzrt.RaceAccess(r, true) // the Processer's state is unsynchronised: consecutive Invokes must be ordered by happens-before
 	r.active++
 	if r.active != 1 {
 		r.overlap = true
@@ -58,6 +59,10 @@ func ZZ_Inbox() {
 			payload[t][j] = zzrt.NondetInt64("payload")
 		}
 	}
+	if prop == 2 {
+		zzrt.RaceDetect(true)
+		zzrt.RaceWatch(true)
+	}
 	lateStart := zzrt.Choose(2) == 1
 	if !lateStart {
 		in.Start(rec)
@@ -76,6 +81,7 @@ func ZZ_Inbox() {
 		zzrt.Reach("start-races-with-senders")
 	}
 	zzrt.Quiesce() // every goroutine has finished or is blocked; nobody sends any more
+	zzrt.RaceWatch(false)
 
 	switch prop {
 	case 2:
